@@ -604,18 +604,37 @@ Definition oc_set_new_ident (id : node) (s : ocstate) : ocstate :=
 Definition oc_set_found (s : ocstate) : ocstate :=
   {| oc_assigns := oc_assigns s; oc_new_ident := oc_new_ident s; oc_found := true; oc_p := oc_p s |}.
 
+(** The callee of an optional call whose receiver must stay the [this] of the call: a member access, also when it
+    is itself optional ([obj?.m?.(x)]) or parenthesised ([(obj.m)?.(x)]); the flag says whether the access is optional. *)
+Definition oc_callee_member (callee : node) : option (node * node * bool) :=
+  let inner := if is_kind KParen callee then peel_parens callee else callee in
+  match member_parts inner with
+  | Some (obj, prop) => Some (obj, prop, false)
+  | None =>
+      match inner with
+      | Node (K KOptChain _ _) [Node (Bln true) []; base] =>
+          match member_parts base with
+          | Some (obj, prop) => Some (obj, prop, true)
+          | None => None
+          end
+      | _ => None
+      end
+  end.
+
 (** [get_call_from_base_call]; [base] is the OptCall (serialized like a CallExpression). *)
 Definition oc_call_from_base (c : config) (base : node) (optional : bool) (s : ocstate)
   : option node * ocstate :=
   match base with
   | Node (K KCall _ _) [cx; callee; Node Lst args; targs] =>
       if optional then
-        match member_parts callee with
-        | Some (obj, prop) =>
+        match oc_callee_member callee with
+        | Some (obj, prop, member_optional) =>
             let '(obj_id, s1) := oc_get_ident c obj s in
             match obj_id with
             | Some oid =>
-                let new_member := mk_member DUMMY oid prop in
+                let new_member :=
+                  if member_optional then mk KOptChain DUMMY [nB true; mk_member DUMMY oid prop]
+                  else mk_member DUMMY oid prop in
                 let '(mem_id, s2) := oc_get_ident c new_member s1 in
                 match mem_id with
                 | Some mid =>
